@@ -102,8 +102,8 @@ def props_asm(p):
     return "".join(out)
 
 
-def unit_asm(k, stack, props, calls):
-    s = [".text\n"]
+def unit_asm(k, stack, props, calls, salt=""):
+    s = [f"# case {salt}\n.text\n"]     # the salt keeps cached objects private to a case
     if k == 0:
         s.append(".globl _start\n.type _start,@function\n_start:\n")
         for c in calls:
@@ -167,7 +167,7 @@ def build_inputs(ctx, case, d):
     args = []
     for k in case["order"]:
         u = units[k]
-        obj = tools.assemble(ctx, unit_asm(k, u["stack"], u["props"], used if k == 0 else []))
+        obj = tools.assemble(ctx, unit_asm(k, u["stack"], u["props"], used if k == 0 else [], os.path.basename(d)))
         u["obj"] = obj
         if u["cont"] == "obj":
             args.append(obj)
